@@ -21,6 +21,11 @@ NA = {
 PENDING_REASON = "claimed in DESIGN.md; its check is still under construction (moves to checks[] when its command exists)"
 
 CHECKS = {
+"C15": dict(
+  text="Seeded exploration (deterministic simulation), scoped to the interfaces that meet an environment or carry state: (a) the libjsonnet C VM as a long-lived handle - histories of setter calls, import and native callbacks owned by the simulator (and failing on request), evaluations of all six flavours, buffer hand-back, legal hand-over of the VM to another OS thread - executed in a supervised child process and compared call by call with the Rust API driven by an independent mapping (error flag, byte-identical text, decoded multi/stream framing, no abort); (b) the jrsonnet executable over a generated on-disk world, cwd and environment for seeded configurations of ext/tla flavours, -J/JSONNET_PATH, output modes and stack limit, compared with the library API in-process (exit status, stdout bytes, created files); (c) jrsonnet-deps vs the files statically reachable in the world model, which must include every file an evaluation loads. A clean batch is evidence, not proof.",
+  note="Trusted: the harness's own option-to-API mapping (cli.rs library_run, capi.rs reference_eval) defines 'the same configuration'; the dev-profile executables stand for the shipped ones. This is exploration by seeded configurations and call histories, not a proof over all programs; the generated programs are small templates that read the configured variables and import world files.",
+  technique="deterministic simulation: seeded C-API call histories with failing callbacks and VM hand-over in supervised children; seeded on-disk worlds/configurations for the executables; reference = library API / world model",
+  design="§5.4"),
 "C03": dict(
   text="Seeded exploration (deterministic simulation), scoped: 'never evaluated' and 'at most once' are checked over the recorded history of std.trace events while a simulated embedding host forces the lazy result graph through the public Rust API in a seeded order, with repetition, through several access paths, and with demands cut off by a frame limit at arbitrary points (then retried). The memo state machines behind the property (thunks, array element caches, object field caches, object-local caches, import cache) are thereby driven through orders no single evaluation reaches. The space of programs is a fixed family of 30 templates with statically known label budgets and planted error/divergence bombs; it is not explored. A clean batch is evidence, not proof.",
   note="Trusted: the label budgets and bomb placement of the templates. NOT decided: C03 over all programs (the quantifier of the property is over programs, which is input generation, a different technique family); exponential-time regressions that keep counts <= 1.",
